@@ -1,4 +1,4 @@
-import LexVerif.Props.C01SlowMain
+import LexVerif.Props.C01Compact
 /-!
 # Props.C01Final — C01 with Eisel–Lemire proved and the slow path modelled
 
@@ -12,14 +12,20 @@ import LexVerif.Props.C01SlowMain
 
 `numberToFloat_final` / `C01_main_slow`: for every untruncated decimal input of a non-`compact` build,
 `parseFloatAlgoModel slowModel = parseFloatModel` (i.e. `Spec.litBits` of the digit content), provided the estimates
-Eisel–Lemire can return for the input lie in `SlowDomain` (input-dependent capacity / range side conditions of the
-big-integer model; vacuous whenever `compute_float` decides).
+Eisel–Lemire can return for the input lie in `SlowDomain`.
+
+Then everything is discharged: `C01_decimal_correct` (untruncated inputs: `NumberExact` from the syntax model,
+`SlowDomain` from `lemire_estimate_facts`), `C01_decimal_correct_all` (truncated inputs the two-pass wrapper decides),
+and **`C01_decimal_correct_slow`** — every input of a non-`compact` decimal build, any number of digits, no residual
+hypothesis (`Props.C01Trunc`: what `lemire` hands to the slow path for a truncated mantissa; `Props.C01Slow`:
+`truncation_invariant_proved`, the `b = +∞` case); `C01_decimal_correct_compact` — the same for `compact` builds
+(`Props.C01Compact`: Bellerophon's two-sided estimate); together **`C01_decimal_full_proved`**: every build.
 -/
 namespace LexVerif.Props.C01Final
 open LexVerif.Spec LexVerif.Model LexVerif.Model.ParseFloatAlgo
 open LexVerif.Proof.RoundNE LexVerif.Proof.ExtRound LexVerif.Proof.Pipeline
 open LexVerif.Props.C01 (IsLemireFloat IsI64 Bracket)
-open LexVerif.Props.C01Main LexVerif.Props.C01SlowMain
+open LexVerif.Props.C01Main LexVerif.Props.C01SlowMain LexVerif.Props.C01SlowDomain LexVerif.Proof.Slow
 
 theorem hden_of {F : FTy} (hF : IsLemireFloat F) : F.C.denormalExponent = 1 - F.C.exponentBias := by
   rcases hF with h | h <;> subst h <;> decide
@@ -105,5 +111,535 @@ theorem C01_main_decided (hN : NumberExact) (feats : Features) (hcompact : feats
   rw [numberToFloat_decided slow hF ⟨feats, fmt, false⟩ (by omega) (by omega) (by omega) n hmany hre
     (fastContract_decimal hF ⟨feats, fmt, false⟩ hr n) hm hv (hvalid hv)]
   rw [(spec_forms hF ⟨feats, fmt, false⟩ (by omega) (by omega) (by omega) n hmany hre).2]
+
+/-! ## the `SlowDomain` conditions discharged (`Props.C01SlowDomain.slowDomain_of_exact`) -/
+
+/-- **C01 for one untruncated decimal `Number`, no condition on the estimate left**: exact `mantissa`/`exponent` words
+(`NumberExactAt`), plain digit slices (`PlainSlices`) and at most 19 significant digits — then the pipeline with the
+modelled slow path returns `litBits` of the digit content. Everything about Eisel–Lemire's estimate (normalisation,
+exponent range, bracket, finiteness of its round-down, both capacity guards of the big-integer code) is derived. -/
+theorem numberToFloat_exact {F : FTy} (hF : IsLemireFloat F) (c : Cfg) (hcompact : c.feats.compact = false)
+    (hr : c.mantissaRadix = 10) (hb : c.exponentBase = 10)
+    (n : Number) (hmany : n.manyDigits = false) (hx : NumberExactAt c n) (hs : PlainSlices c n)
+    (hfew : (sigBytes n.integer n.fraction).length ≤ 19) :
+    numberToFloat slowModel c F n false = some (litBits F.fmt c.mantissaRadix c.exponentBase (numberLit c n)) := by
+  apply numberToFloat_final hF c hcompact hr hb n hmany hx
+  intro fp hcf hinv _ _ _ _ p eb lay
+  exact slowDomain_of_exact hF lay c hr hb n hx hs hfew fp hcf hinv
+
+/-! ## the decimal theorem without named hypotheses (untruncated inputs) -/
+
+/-- a valid decimal-point option is not a decimal digit -/
+theorem dp_not_digit (feats : Features) (fmt : Format) (o : POpts) (hr : 10 ≤ fmt.mantissaRadix)
+    (hv : isValidOptionsPunctuation feats fmt o.exp o.dp = true) : charToDigit o.dp 10 = none := by
+  unfold isValidOptionsPunctuation at hv
+  split at hv
+  · cases hv
+  · rename_i hc
+    simp only [Bool.or_eq_true, Bool.not_eq_true', not_or, Bool.not_eq_false] at hc
+    have h1 := hc.1
+    unfold isValidControl isValidOptionalControl at h1
+    simp only [Bool.and_eq_true, decide_eq_true_eq, Option.isNone_iff_eq_none, Bool.or_eq_true] at h1
+    obtain ⟨hne0, ⟨⟨hnone, _⟩, _⟩, hasc⟩ := h1
+    have hlt : o.dp < 256 := by
+      rcases hasc with h | h
+      · unfold isValidAscii at h
+        simp only [Bool.or_eq_true, Bool.and_eq_true, decide_eq_true_eq] at h
+        omega
+      · omega
+    generalize hR : (if fmt.mantissaRadix > fmt.exponentRadix then fmt.mantissaRadix else fmt.exponentRadix) = R at hnone
+    have hR10 : 10 ≤ R := by rw [← hR]; split <;> omega
+    unfold charToDigit charToValidDigit at hnone ⊢
+    dsimp only at hnone ⊢
+    rw [if_pos (Nat.le_refl 10)]
+    split
+    · rename_i hd
+      exfalso
+      split at hnone
+      · rename_i hR'
+        rw [if_pos (by omega)] at hnone
+        cases hnone
+      · rename_i hR'
+        have hdig : 48 ≤ o.dp ∧ o.dp ≤ 57 := by omega
+        rw [if_pos hdig] at hnone
+        rw [if_pos (by omega)] at hnone
+        cases hnone
+    · rfl
+
+/-- `parseFloatAlgoModel_eq` with the option validation available to the per-`Number` obligation -/
+theorem parseFloatAlgoModel_eq_valid (slow : SlowRadix) (feats : Features) (fmt : Format) (o : POpts) (isPartial : Bool)
+    (F : FTy) (s : List Nat)
+    (h : isValidOptionsPunctuation feats fmt o.exp o.dp = true → ∀ n cnt,
+      parseFloatSyntax ⟨feats, fmt, false⟩ o isPartial s (formatError feats fmt).isNone = .ok (.number n cnt) →
+      numberToFloat slow ⟨feats, fmt, false⟩ F n false = some (numberBits ⟨feats, fmt, false⟩ F.fmt n)) :
+    parseFloatAlgoModel slow feats fmt o isPartial F s = parseFloatModel feats fmt o isPartial F.fmt s := by
+  unfold parseFloatAlgoModel parseFloatModel
+  cases optionsError o with
+  | some e => rfl
+  | none =>
+    simp only []
+    split
+    · rfl
+    · split
+      · rfl
+      · rename_i hval
+        split
+        · rfl
+        · cases hp : parseFloatSyntax ⟨feats, fmt, false⟩ o isPartial s (formatError feats fmt).isNone with
+          | error e => rfl
+          | ok q =>
+            simp only []
+            cases q with
+            | zero k => rfl
+            | special sp neg k => cases sp <;> rfl
+            | number n cnt =>
+              unfold renderParsedAlgo renderParsed
+              simp only []
+              rw [h (by simpa using hval) n cnt hp]
+
+/-- **`C01_decimal_correct`** — decimal string→float is correctly rounded, API level, pipeline with the **modelled** slow
+path, Eisel–Lemire **proved**, the syntax layer's `Number` **proved** exact: for every non-`compact` build, every decimal
+format without digit separator and base prefix (every format when the `format` feature is off), all options, complete
+and partial parser, float type `f32`/`f64`, and every input of bytes (shorter than `2^60`) whose `Number` is untruncated
+(`many_digits = false`, i.e. at most 19 significant digits),
+`parseFloatAlgoModel slowModel` — syntax → `try_fast_path` → `lemire` → `slow_radix` → `to_native` — prints exactly what
+the specification model prints: `Spec.litBits` of the digit content (the nearest float, ties to even, overflow to
+infinity, gradual underflow), the same count, the same errors. **No named hypothesis is left**; the only restriction on the
+input is `hfew`. -/
+theorem C01_decimal_correct (feats : Features) (hcompact : feats.compact = false) (fmt : Format)
+    (hr : fmt.mantissaRadix = 10) (hb : fmt.exponentBase = 10)
+    (hclass : feats.format = false ∨ C12.SepPrefixFree fmt)
+    (o : POpts) {F : FTy} (hF : IsLemireFloat F) (isPartial : Bool) (s : List Nat)
+    (h256 : ∀ x ∈ s, x < 256) (hlen : s.length < 2 ^ 60)
+    (hfew : ∀ n cnt, parseFloatSyntax ⟨feats, fmt, false⟩ o isPartial s (formatError feats fmt).isNone =
+      .ok (.number n cnt) → n.manyDigits = false) :
+    parseFloatAlgoModel slowModel feats fmt o isPartial F s = parseFloatModel feats fmt o isPartial F.fmt s := by
+  apply parseFloatAlgoModel_eq_valid
+  intro hval n cnt hp
+  have hmany := hfew n cnt hp
+  have hdp := dp_not_digit feats fmt o (by omega) hval
+  obtain ⟨hx, hs, hfew19⟩ := C01Number.number_exact_of_syntax ⟨feats, fmt, false⟩ rfl hclass hr hb o hdp isPartial s _
+    h256 hlen n cnt hp hmany
+  rw [numberToFloat_exact hF ⟨feats, fmt, false⟩ hcompact hr hb n hmany hx hs hfew19]
+  have hr' : (⟨feats, fmt, false⟩ : Cfg).mantissaRadix = 10 := hr
+  have hb' : (⟨feats, fmt, false⟩ : Cfg).exponentBase = 10 := hb
+  rw [(spec_forms hF ⟨feats, fmt, false⟩ (by omega) (by omega) (by omega) n hmany hx.2.2).2]
+
+/-! ## truncated mantissas decided by the two-pass wrapper -/
+
+/-- **a truncated decimal `Number` on which Eisel–Lemire's wrapper answers validly**: the first 19 significant digits
+`w` and the exponent `q` bracket the exact value, `w·10^q ≤ V < (w+1)·10^q` (`number_truncated_of_syntax`), and
+`lemire_wrapper_all` says a valid answer is `roundNE` of every value in that interval — so the pipeline returns `litBits` of
+the whole digit content without consulting the slow path. -/
+theorem numberToFloat_truncated_decided {F : FTy} (hF : IsLemireFloat F) (slow : SlowRadix) (c : Cfg)
+    (hcompact : c.feats.compact = false) (hr : c.mantissaRadix = 10) (hb : c.exponentBase = 10)
+    (n : Number) (hmany : n.manyDigits = true) (hs : PlainSlices c n)
+    (hN : 19 < (sigBytes n.integer n.fraction).length)
+    (hw : n.mantissa = ofDigits 10 (dv 10 ((sigBytes n.integer n.fraction).take 19)))
+    (hwlt : n.mantissa < 10 ^ 19)
+    (hq : n.exponent = ((sigBytes n.integer n.fraction).length : Int) - 19 + n.explicitExp -
+      ((n.fraction.getD []).length : Int))
+    (hE1 : -(2 ^ 40 : Int) ≤ n.explicitExp) (hE2 : n.explicitExp ≤ 2 ^ 40)
+    (hl1 : n.integer.length < 2 ^ 60) (hl2 : (n.fraction.getD []).length < 2 ^ 60)
+    (hdec : ∃ fp, Lemire.lemire F (numOf n) false = .ok fp ∧ 0 ≤ fp.exp) :
+    numberToFloat slow c F n false = some (numberBits c F.fmt n) := by
+  obtain ⟨p, eb, lay⟩ := layout_of hF
+  obtain ⟨fp, hm, hv⟩ := hdec
+  have h40 : (2 : Int) ^ 40 = 1099511627776 := by norm_num
+  have h60 : (2 : Nat) ^ 60 = 1152921504606846976 := by norm_num
+  have h63 : (2 : Int) ^ 63 = 9223372036854775808 := by norm_num
+  -- the specification side
+  have hbits : numberBits c F.fmt n = litBits F.fmt 10 10 (numberLit c n) := by
+    unfold numberBits numberLit
+    simp only [hmany, if_true, hr, hb]
+    rfl
+  have hlit := litBits_exact lay (r := 10) (b := 10) (by decide) (by decide) (by decide) (numberLit c n)
+    (by have := numberLit_digits_lt c n; rwa [hr] at this)
+  -- the digits
+  have hvs : ValidDigits 10 (sigBytes n.integer n.fraction) := by
+    have := valid_sigBytes hs.validInt hs.validFrac
+    rwa [hr] at this
+  obtain ⟨z, hz⟩ := sig_decomp n.integer n.fraction
+  have hD : ofDigits 10 ((numberLit c n).intDigits ++ (numberLit c n).fracDigits) =
+      ofDigits 10 (dv 10 (sigBytes n.integer n.fraction)) := by
+    rw [hs.intDigits, hs.fracDigits, hr]
+    have : dv 10 n.integer ++ dv 10 (n.fraction.getD []) = dv 10 (n.integer ++ n.fraction.getD []) := by
+      unfold dv; rw [List.map_append]
+    rw [this, hz, ofDigits_dv_zeros]
+  have hfl : (numberLit c n).fracDigits.length = (n.fraction.getD []).length := by
+    rw [hs.fracDigits, dv_length]
+  have hE : (numberLit c n).exp = n.explicitExp := rfl
+  have hsplit := C01Number.ofDigits_dv_take_drop 10 (sigBytes n.integer n.fraction) 19
+  have htail := ofDigits_dv_lt (valid_drop hvs 19)
+  have hNle : (sigBytes n.integer n.fraction).length ≤ n.integer.length + (n.fraction.getD []).length := by
+    have := congrArg List.length hz
+    rw [List.length_append, List.length_append, List.length_replicate] at this
+    omega
+  generalize hsig : sigBytes n.integer n.fraction = sig at *
+  generalize hfle : (n.fraction.getD []).length = fl at *
+  generalize hS : ofDigits 10 (dv 10 sig) = S at *
+  generalize htl : ofDigits 10 (dv 10 (sig.drop 19)) = tail at *
+  rw [← hw, List.length_drop] at hsplit
+  rw [List.length_drop] at htail
+  generalize hA : sig.length - 19 = A at *
+  -- the interval
+  have hqI : IsI64 n.exponent := by unfold IsI64; rw [hq]; constructor <;> omega
+  have key : ∀ m : Nat, (powFrac 10 n.exponent m) = (m * 10 ^ n.exponent.toNat, 10 ^ (-n.exponent).toNat) :=
+    fun m => powFrac_eq 10 _ m
+  have hexp : n.exponent.toNat + (fl + (-n.explicitExp).toNat) = A + n.explicitExp.toNat + (-n.exponent).toNat := by
+    rw [hq]; omega
+  have hV : litFrac 10 10 (numberLit c n) = (S * 10 ^ n.explicitExp.toNat, 10 ^ fl * 10 ^ (-n.explicitExp).toNat) := by
+    rw [litFrac_eq, hD, hfl, hE]
+  have hsound := C01.lemire_wrapper_all F hF n.exponent hqI n.mantissa n.isNegative
+    (by have : (10 : Nat) ^ 19 < 2 ^ 64 := by decide
+        omega) (fp := fp)
+    (by
+      have : numOf n = ⟨n.mantissa, n.exponent, n.isNegative, true⟩ := by unfold numOf; rw [hmany]
+      rw [← this]; exact hm) hv
+    (litFrac 10 10 (numberLit c n)).1 (litFrac 10 10 (numberLit c n)).2
+    (litFrac_den_pos (by decide) (by decide) _)
+    (by
+      rw [key, hV]
+      simp only
+      calc n.mantissa * 10 ^ n.exponent.toNat * (10 ^ fl * 10 ^ (-n.explicitExp).toNat)
+          = n.mantissa * 10 ^ (n.exponent.toNat + (fl + (-n.explicitExp).toNat)) := by
+            rw [Nat.pow_add, Nat.pow_add]; ring
+        _ = n.mantissa * 10 ^ A * (10 ^ n.explicitExp.toNat * 10 ^ (-n.exponent).toNat) := by
+            rw [hexp, Nat.pow_add, Nat.pow_add]; ring
+        _ ≤ S * (10 ^ n.explicitExp.toNat * 10 ^ (-n.exponent).toNat) :=
+            Nat.mul_le_mul_right _ (by omega)
+        _ = S * 10 ^ n.explicitExp.toNat * 10 ^ (-n.exponent).toNat := by ring)
+    (by
+      rw [key, hV]
+      simp only
+      calc S * 10 ^ n.explicitExp.toNat * 10 ^ (-n.exponent).toNat
+          = S * (10 ^ n.explicitExp.toNat * 10 ^ (-n.exponent).toNat) := by ring
+        _ ≤ (n.mantissa + 1) * 10 ^ A * (10 ^ n.explicitExp.toNat * 10 ^ (-n.exponent).toNat) :=
+            Nat.mul_le_mul_right _ (by
+              have : (n.mantissa + 1) * 10 ^ A = n.mantissa * 10 ^ A + 10 ^ A := by ring
+              omega)
+        _ = (n.mantissa + 1) * 10 ^ (n.exponent.toNat + (fl + (-n.explicitExp).toNat)) := by
+            rw [hexp, Nat.pow_add, Nat.pow_add]; ring
+        _ = (n.mantissa + 1) * 10 ^ n.exponent.toNat * (10 ^ fl * 10 ^ (-n.explicitExp).toNat) := by
+            rw [Nat.pow_add, Nat.pow_add]; ring)
+  -- the pipeline
+  unfold numberToFloat
+  have hfast : FastPath.tryFastPath (smallSetOf c.feats) F c.mantissaRadix c.exponentBase (numOf n) = .none := by
+    unfold FastPath.tryFastPath FastPath.isFastPath
+    rw [hr, hb]
+    simp only [ne_eq, not_true_eq_false, if_false]
+    have : (numOf n).manyDigits = true := hmany
+    simp [this]
+  rw [hfast]
+  simp only
+  have hmp : moderatePath c F (numOf n) false = .ok fp := by
+    unfold moderatePath
+    rw [hr, backend_lemire _ hcompact]
+    exact hm
+  rw [hmp]
+  simp only
+  rw [if_neg (by omega), toNative_eq F fp n.isNegative hsound, hbits, hlit]
+  rfl
+
+/-- **`C01_decimal_correct_all`** — the decimal theorem for **every** input, truncated mantissas included, with the one
+residual hypothesis listed explicitly: `hdec` — on a truncated `Number` (more than 19 significant digits) the two-pass wrapper
+of Eisel–Lemire answers validly (both `w` and `w+1` round to the same float), i.e. the slow path is not consulted. `hdec`
+is a decidable statement about the input (evaluate `Lemire.lemire`); it fails only for inputs within `10^-19` relative distance
+of a rounding boundary. -/
+theorem C01_decimal_correct_all (feats : Features) (hcompact : feats.compact = false) (fmt : Format)
+    (hr : fmt.mantissaRadix = 10) (hb : fmt.exponentBase = 10)
+    (hclass : feats.format = false ∨ C12.SepPrefixFree fmt)
+    (o : POpts) {F : FTy} (hF : IsLemireFloat F) (isPartial : Bool) (s : List Nat)
+    (h256 : ∀ x ∈ s, x < 256) (hlen : s.length < 2 ^ 60)
+    (hdec : ∀ n cnt, parseFloatSyntax ⟨feats, fmt, false⟩ o isPartial s (formatError feats fmt).isNone =
+      .ok (.number n cnt) → n.manyDigits = true →
+      ∃ fp, Lemire.lemire F (numOf n) false = .ok fp ∧ 0 ≤ fp.exp) :
+    parseFloatAlgoModel slowModel feats fmt o isPartial F s = parseFloatModel feats fmt o isPartial F.fmt s := by
+  apply parseFloatAlgoModel_eq_valid
+  intro hval n cnt hp
+  have hdp := dp_not_digit feats fmt o (by omega) hval
+  cases hmany : n.manyDigits with
+  | false =>
+    obtain ⟨hx, hs, hfew19⟩ := C01Number.number_exact_of_syntax ⟨feats, fmt, false⟩ rfl hclass hr hb o hdp isPartial s _
+      h256 hlen n cnt hp hmany
+    rw [numberToFloat_exact hF ⟨feats, fmt, false⟩ hcompact hr hb n hmany hx hs hfew19]
+    have hr' : (⟨feats, fmt, false⟩ : Cfg).mantissaRadix = 10 := hr
+    have hb' : (⟨feats, fmt, false⟩ : Cfg).exponentBase = 10 := hb
+    rw [(spec_forms hF ⟨feats, fmt, false⟩ (by omega) (by omega) (by omega) n hmany hx.2.2).2]
+  | true =>
+    obtain ⟨hs, hN, hw, _, hwlt, hq, hE1, hE2, hl1, hl2⟩ := C01Number.number_truncated_of_syntax ⟨feats, fmt, false⟩ rfl
+      hclass hr hb o hdp isPartial s _ h256 hlen n cnt hp hmany
+    exact numberToFloat_truncated_decided hF slowModel ⟨feats, fmt, false⟩ hcompact hr hb n hmany hs hN hw hwlt hq
+      hE1 hE2 hl1 hl2 (hdec n cnt hp hmany)
+
+/-- `hdec` as a Boolean -/
+def wrapperDecides (F : FTy) (n : Num) : Bool :=
+  match Lemire.lemire F n false with
+  | .ok fp => decide (0 ≤ fp.exp)
+  | _ => false
+
+theorem wrapperDecides_spec (F : FTy) (n : Num) (h : wrapperDecides F n = true) :
+    ∃ fp, Lemire.lemire F n false = .ok fp ∧ 0 ≤ fp.exp := by
+  unfold wrapperDecides at h
+  split at h
+  · rename_i fp hfp
+    exact ⟨fp, hfp, by simpa using h⟩
+  · cases h
+
+/-- non-vacuity of `hdec`: the words of a truncated input (`1.234567890123456789…`) on which the wrapper decides -/
+example : ∃ fp, Lemire.lemire FTy.f64 ⟨1234567890123456789, -18, false, true⟩ false = .ok fp ∧ 0 ≤ fp.exp :=
+  wrapperDecides_spec _ _ (by decide +kernel)
+
+/-! ## truncated mantissas the wrapper does not decide: the slow path -/
+
+/-- **a truncated decimal `Number`, decided or not**: `lemire` answers (no panic); a valid answer is right
+(`numberToFloat_truncated_decided`); an invalid-marked one is an estimate of `w·10^q` from inside the table
+(`C01Trunc.lemire_truncated`), with which the slow-path model returns the float nearest to the value of all the digits
+(`C01Trunc.slowDomain_of_truncated`). -/
+theorem numberToFloat_truncated {F : FTy} (hF : IsLemireFloat F) (c : Cfg)
+    (hcompact : c.feats.compact = false) (hr : c.mantissaRadix = 10) (hb : c.exponentBase = 10)
+    (n : Number) (hmany : n.manyDigits = true) (hs : PlainSlices c n)
+    (hN : 19 < (sigBytes n.integer n.fraction).length)
+    (hw : n.mantissa = ofDigits 10 (dv 10 ((sigBytes n.integer n.fraction).take 19)))
+    (hw1 : 10 ^ 18 ≤ n.mantissa) (hwlt : n.mantissa < 10 ^ 19)
+    (hq : n.exponent = ((sigBytes n.integer n.fraction).length : Int) - 19 + n.explicitExp -
+      ((n.fraction.getD []).length : Int))
+    (hE1 : -(2 ^ 40 : Int) ≤ n.explicitExp) (hE2 : n.explicitExp ≤ 2 ^ 40)
+    (hl1 : n.integer.length < 2 ^ 60) (hl2 : (n.fraction.getD []).length < 2 ^ 60) :
+    numberToFloat slowModel c F n false = some (numberBits c F.fmt n) := by
+  have hw0 : n.mantissa ≠ 0 := by
+    have : 0 < 10 ^ 18 := Nat.pow_pos (by decide)
+    omega
+  have hw64 : n.mantissa + 1 < 2 ^ 64 := by
+    have : (10 : Nat) ^ 19 < 2 ^ 64 := by decide
+    omega
+  have hnum : numOf n = ⟨n.mantissa, n.exponent, n.isNegative, true⟩ := by unfold numOf; rw [hmany]
+  obtain ⟨fp, hm, hfacts⟩ := C01Trunc.lemire_truncated F hF n.exponent n.mantissa n.isNegative hw0 hw64
+  rw [← hnum] at hm
+  by_cases hv : 0 ≤ fp.exp
+  · exact numberToFloat_truncated_decided hF slowModel c hcompact hr hb n hmany hs hN hw hwlt hq hE1 hE2 hl1 hl2
+      ⟨fp, hm, hv⟩
+  · have hinv : fp.exp < 0 := by omega
+    obtain ⟨hq1, hq2, p, eb, lay, hest⟩ := hfacts hinv
+    obtain ⟨d, hd, hd19, hd769⟩ := C01Trunc.maxDigits_decimal_le c.feats hF
+    obtain ⟨D, hbr⟩ := C01Trunc.slowDomain_of_truncated hF lay c hr hb n hs hN hw hw1 hwlt hq hq1 hq2 fp hest d hd
+      hd19 hd769
+    -- the specification side
+    have hbits : numberBits c F.fmt n = litBits F.fmt 10 10 (numberLit c n) := by
+      unfold numberBits numberLit
+      simp only [hmany, if_true, hr, hb]
+      rfl
+    have hlit := litBits_exact lay (r := 10) (b := 10) (by decide) (by decide) (by decide) (numberLit c n)
+      (by have := numberLit_digits_lt c n; rwa [hr] at this)
+    have hslow := slowModel_hslow hF lay (hden_of hF) (by omega) n fp D (by rw [hr, hb]; exact hbr)
+    rw [hr, hb] at hslow
+    -- the pipeline
+    unfold numberToFloat
+    have hfast : FastPath.tryFastPath (smallSetOf c.feats) F c.mantissaRadix c.exponentBase (numOf n) = .none := by
+      unfold FastPath.tryFastPath FastPath.isFastPath
+      rw [hr, hb]
+      simp only [ne_eq, not_true_eq_false, if_false]
+      have : (numOf n).manyDigits = true := hmany
+      simp [this]
+    rw [hfast]
+    simp only
+    have hmp : moderatePath c F (numOf n) false = .ok fp := by
+      unfold moderatePath
+      rw [hr, backend_lemire _ hcompact]
+      exact hm
+    rw [hmp]
+    simp only
+    rw [if_pos hinv, slowPath_generic slowModel c D.env, toNative_eq F _ n.isNegative hslow, hbits, hlit]
+    rfl
+
+/-- **`C01_decimal_correct_slow`** — decimal string→float is correctly rounded for **every** input of a non-`compact`
+build: any number of digits, truncated mantissas whether or not the two-pass wrapper decides; radix 10, separator-free
+format class, `f32`/`f64`, complete and partial parser, inputs shorter than `2^60` bytes.
+`parseFloatAlgoModel slowModel` — syntax → `try_fast_path` → `lemire` (both passes, `compute_error`) → `slow_radix`
+(`parse_mantissa` with its digit limit, `positive_digit_comp` / `negative_digit_comp`, big-integer arithmetic with its
+capacity checks) → `to_native` — prints exactly what the specification prints: `Spec.litBits` of the digit content, the
+same count, the same errors. **No residual hypothesis.** -/
+theorem C01_decimal_correct_slow (feats : Features) (hcompact : feats.compact = false) (fmt : Format)
+    (hr : fmt.mantissaRadix = 10) (hb : fmt.exponentBase = 10)
+    (hclass : feats.format = false ∨ C12.SepPrefixFree fmt)
+    (o : POpts) {F : FTy} (hF : IsLemireFloat F) (isPartial : Bool) (s : List Nat)
+    (h256 : ∀ x ∈ s, x < 256) (hlen : s.length < 2 ^ 60) :
+    parseFloatAlgoModel slowModel feats fmt o isPartial F s = parseFloatModel feats fmt o isPartial F.fmt s := by
+  apply parseFloatAlgoModel_eq_valid
+  intro hval n cnt hp
+  have hdp := dp_not_digit feats fmt o (by omega) hval
+  cases hmany : n.manyDigits with
+  | false =>
+    obtain ⟨hx, hs, hfew19⟩ := C01Number.number_exact_of_syntax ⟨feats, fmt, false⟩ rfl hclass hr hb o hdp isPartial s _
+      h256 hlen n cnt hp hmany
+    rw [numberToFloat_exact hF ⟨feats, fmt, false⟩ hcompact hr hb n hmany hx hs hfew19]
+    have hr' : (⟨feats, fmt, false⟩ : Cfg).mantissaRadix = 10 := hr
+    have hb' : (⟨feats, fmt, false⟩ : Cfg).exponentBase = 10 := hb
+    rw [(spec_forms hF ⟨feats, fmt, false⟩ (by omega) (by omega) (by omega) n hmany hx.2.2).2]
+  | true =>
+    obtain ⟨hs, hN, hw, hw1, hwlt, hq, hE1, hE2, hl1, hl2⟩ := C01Number.number_truncated_of_syntax ⟨feats, fmt, false⟩ rfl
+      hclass hr hb o hdp isPartial s _ h256 hlen n cnt hp hmany
+    exact numberToFloat_truncated hF ⟨feats, fmt, false⟩ hcompact hr hb n hmany hs hN hw hw1 hwlt hq
+      hE1 hE2 hl1 hl2
+
+/-- non-vacuity: the standard format of the default build satisfies every hypothesis -/
+example (s : List Nat) (h256 : ∀ x ∈ s, x < 256) (hlen : s.length < 2 ^ 60) :
+    parseFloatAlgoModel slowModel {} Format.standard {} false FTy.f64 s =
+      parseFloatModel {} Format.standard {} false f64 s :=
+  C01_decimal_correct_slow {} rfl Format.standard rfl rfl (Or.inl rfl) {} (Or.inl rfl) false s h256 hlen
+
+/-- the pipeline on 30-digit literals around the half-way point `2^53 + 1` (truncated mantissa, the wrapper does not
+decide, `negative_digit_comp` does): just above rounds up, exactly half-way and just below round to even -/
+example :
+    parseFloatAlgoModel slowModel {} Format.standard {} false FTy.f64
+      (C01Slow.bytesOf "9007199254740993.00000000000001") = "ok 4340000000000001 -" ∧
+    parseFloatAlgoModel slowModel {} Format.standard {} false FTy.f64
+      (C01Slow.bytesOf "9007199254740993.00000000000000") = "ok 4340000000000000 -" ∧
+    parseFloatAlgoModel slowModel {} Format.standard {} false FTy.f64
+      (C01Slow.bytesOf "9007199254740992.99999999999999") = "ok 4340000000000000 -" := by decide +kernel
+
+/-! ## `compact` builds: Bellerophon and the slow path -/
+
+open LexVerif.Props.C01Compact in
+theorem moderatePath_compact (c : Cfg) (hcompact : c.feats.compact = true) (hr : c.mantissaRadix = 10) (F : FTy)
+    (n : Num) : moderatePath c F n false = Bellerophon.bellerophon F compactP n false := by
+  unfold moderatePath
+  rw [hr, backend_bellerophon_compact _ hcompact]
+  simp only []
+  unfold Bellerophon.powersOf
+  rw [hcompact]
+  rfl
+
+open LexVerif.Props.C01Compact in
+/-- an untruncated decimal `Number` in a `compact` build: fast path, Bellerophon (`bellerophon_sound`), and for an
+invalid-marked answer the slow path with Bellerophon's two-sided estimate (`slowDomain_bell_exact`) -/
+theorem numberToFloat_compact_exact {F : FTy} (hF : IsLemireFloat F) (c : Cfg) (hcompact : c.feats.compact = true)
+    (hr : c.mantissaRadix = 10) (hb : c.exponentBase = 10)
+    (n : Number) (hmany : n.manyDigits = false) (hx : NumberExactAt c n) (hs : PlainSlices c n)
+    (hfew : (sigBytes n.integer n.fraction).length ≤ 19) :
+    numberToFloat slowModel c F n false = some (litBits F.fmt c.mantissaRadix c.exponentBase (numberLit c n)) := by
+  obtain ⟨p, eb, lay⟩ := layout_of hF
+  have hmp := moderatePath_compact c hcompact hr F (numOf n)
+  cases hbel : Bellerophon.bellerophon F compactP (numOf n) false with
+  | panic => exact absurd hbel (C01.bellerophon_no_panic F (numOf n) false)
+  | ok fp =>
+    have hx' := hx
+    obtain ⟨hw, hq, hre⟩ := hx'
+    apply numberToFloat_slowModel hF lay (hden_of hF) c (by omega) (by omega) (by omega) n hmany hre
+      (fastContract_decimal hF c hr n)
+    · refine ⟨fp, by rw [hmp, hbel], fun hv => ?_, fun hinv => ?_⟩
+      · rw [hb]; exact C01.bellerophon_sound_untruncated F hF (numOf n) hmany hw hbel hv
+      · obtain ⟨d, _, hbr⟩ := slowDomain_bell_exact hF lay c hr hb n hmany hx hs hfew fp hbel hinv
+        have hcg := roundNE_congr' lay.wf (powFrac_den_pos (by omega) _ _)
+          (litFrac_den_pos (by omega) (by omega) _) hre
+        rw [hr, hb] at hcg
+        unfold C01.Bracket at hbr ⊢
+        rw [hb, hcg]
+        exact hbr
+    · intro fp' hm hneg
+      rw [hmp, hbel] at hm
+      injection hm with hm
+      subst hm
+      obtain ⟨d, D, _⟩ := slowDomain_bell_exact hF lay c hr hb n hmany hx hs hfew fp hbel hneg
+      exact ⟨d, D⟩
+
+open LexVerif.Props.C01Compact in
+/-- a truncated decimal `Number` in a `compact` build -/
+theorem numberToFloat_compact_truncated {F : FTy} (hF : IsLemireFloat F) (c : Cfg)
+    (hcompact : c.feats.compact = true) (hr : c.mantissaRadix = 10) (hb : c.exponentBase = 10)
+    (n : Number) (hmany : n.manyDigits = true) (hs : PlainSlices c n)
+    (hN : 19 < (sigBytes n.integer n.fraction).length)
+    (hw : n.mantissa = ofDigits 10 (dv 10 ((sigBytes n.integer n.fraction).take 19)))
+    (hw1 : 10 ^ 18 ≤ n.mantissa) (hwlt : n.mantissa < 10 ^ 19)
+    (hq : n.exponent = ((sigBytes n.integer n.fraction).length : Int) - 19 + n.explicitExp -
+      ((n.fraction.getD []).length : Int)) :
+    numberToFloat slowModel c F n false = some (numberBits c F.fmt n) := by
+  obtain ⟨p, eb, lay⟩ := layout_of hF
+  have hmp := moderatePath_compact c hcompact hr F (numOf n)
+  have hw64 : n.mantissa < 2 ^ 64 := by
+    have : (10 : Nat) ^ 19 < 2 ^ 64 := by decide
+    omega
+  -- the specification side
+  have hbits : numberBits c F.fmt n = litBits F.fmt 10 10 (numberLit c n) := by
+    unfold numberBits numberLit
+    simp only [hmany, if_true, hr, hb]
+    rfl
+  have hlit := litBits_exact lay (r := 10) (b := 10) (by decide) (by decide) (by decide) (numberLit c n)
+    (by have := numberLit_digits_lt c n; rwa [hr] at this)
+  have hfast : FastPath.tryFastPath (smallSetOf c.feats) F c.mantissaRadix c.exponentBase (numOf n) = .none := by
+    unfold FastPath.tryFastPath FastPath.isFastPath
+    rw [hr, hb]
+    simp only [ne_eq, not_true_eq_false, if_false]
+    have : (numOf n).manyDigits = true := hmany
+    simp [this]
+  cases hbel : Bellerophon.bellerophon F compactP (numOf n) false with
+  | panic => exact absurd hbel (C01.bellerophon_no_panic F (numOf n) false)
+  | ok fp =>
+    unfold numberToFloat
+    rw [hfast]
+    simp only
+    rw [hmp, hbel]
+    simp only
+    by_cases hv : 0 ≤ fp.exp
+    · have htv := litFrac_tv_truncated c hr n hmany hs hN hw hq
+      have hsound := C01.bellerophon_sound F hF (numOf n) hw64 (fun _ => by
+        have : (2 : Nat) ^ 44 ≤ 10 ^ 18 := by decide
+        exact Nat.le_trans this hw1) _ _ (litFrac_den_pos (by decide) (by decide) _) htv hbel hv
+      rw [if_neg (by omega), toNative_eq F fp n.isNegative hsound, hbits, hlit]
+      rfl
+    · have hinv : fp.exp < 0 := by omega
+      obtain ⟨d, D, hbr⟩ := slowDomain_bell_truncated hF lay c hr hb n hmany hs hN hw hw1 hwlt hq fp hbel hinv
+      have hslow := slowModel_hslow hF lay (hden_of hF) (by omega) n fp D (by rw [hr, hb]; exact hbr)
+      rw [hr, hb] at hslow
+      rw [if_pos hinv, slowPath_generic slowModel c D.env, toNative_eq F _ n.isNegative hslow, hbits, hlit]
+      rfl
+
+/-- **`C01_decimal_correct_compact`** — the decimal theorem for `compact` builds: every input, any number of digits, no
+residual hypothesis; the moderate path is Bellerophon -/
+theorem C01_decimal_correct_compact (feats : Features) (hcompact : feats.compact = true) (fmt : Format)
+    (hr : fmt.mantissaRadix = 10) (hb : fmt.exponentBase = 10)
+    (hclass : feats.format = false ∨ C12.SepPrefixFree fmt)
+    (o : POpts) {F : FTy} (hF : IsLemireFloat F) (isPartial : Bool) (s : List Nat)
+    (h256 : ∀ x ∈ s, x < 256) (hlen : s.length < 2 ^ 60) :
+    parseFloatAlgoModel slowModel feats fmt o isPartial F s = parseFloatModel feats fmt o isPartial F.fmt s := by
+  apply parseFloatAlgoModel_eq_valid
+  intro hval n cnt hp
+  have hdp := dp_not_digit feats fmt o (by omega) hval
+  cases hmany : n.manyDigits with
+  | false =>
+    obtain ⟨hx, hs, hfew19⟩ := C01Number.number_exact_of_syntax ⟨feats, fmt, false⟩ rfl hclass hr hb o hdp isPartial s _
+      h256 hlen n cnt hp hmany
+    rw [numberToFloat_compact_exact hF ⟨feats, fmt, false⟩ hcompact hr hb n hmany hx hs hfew19]
+    have hr' : (⟨feats, fmt, false⟩ : Cfg).mantissaRadix = 10 := hr
+    have hb' : (⟨feats, fmt, false⟩ : Cfg).exponentBase = 10 := hb
+    rw [(spec_forms hF ⟨feats, fmt, false⟩ (by omega) (by omega) (by omega) n hmany hx.2.2).2]
+  | true =>
+    obtain ⟨hs, hN, hw, hw1, hwlt, hq, _, _, _, _⟩ := C01Number.number_truncated_of_syntax ⟨feats, fmt, false⟩ rfl
+      hclass hr hb o hdp isPartial s _ h256 hlen n cnt hp hmany
+    exact numberToFloat_compact_truncated hF ⟨feats, fmt, false⟩ hcompact hr hb n hmany hs hN hw hw1 hwlt hq
+
+/-- **the full statement** (kept as a `Prop`, and proved: `C01_decimal_full_proved`): decimal string→float is correctly
+rounded for **every** build (`compact` or not, any other feature), every separator-free format class of C12, `f32`/`f64`,
+complete and partial parser, every input shorter than `2^60` bytes -/
+def C01_decimal_full : Prop :=
+  ∀ (feats : Features) (fmt : Format), fmt.mantissaRadix = 10 → fmt.exponentBase = 10 →
+    (feats.format = false ∨ C12.SepPrefixFree fmt) →
+    ∀ (o : POpts) (F : FTy), IsLemireFloat F → ∀ (isPartial : Bool) (s : List Nat),
+      (∀ x ∈ s, x < 256) → s.length < 2 ^ 60 →
+      parseFloatAlgoModel slowModel feats fmt o isPartial F s = parseFloatModel feats fmt o isPartial F.fmt s
+
+/-- **`C01_decimal_full` holds**: Eisel–Lemire builds by `C01_decimal_correct_slow`, `compact` builds by
+`C01_decimal_correct_compact` -/
+theorem C01_decimal_full_proved : C01_decimal_full := by
+  intro feats fmt hr hb hclass o F hF isPartial s h256 hlen
+  cases hc : feats.compact with
+  | false => exact C01_decimal_correct_slow feats hc fmt hr hb hclass o hF isPartial s h256 hlen
+  | true => exact C01_decimal_correct_compact feats hc fmt hr hb hclass o hF isPartial s h256 hlen
+
+/-- non-vacuity for a `compact` build -/
+example (s : List Nat) (h256 : ∀ x ∈ s, x < 256) (hlen : s.length < 2 ^ 60) :
+    parseFloatAlgoModel slowModel { compact := true } Format.standard {} false FTy.f32 s =
+      parseFloatModel { compact := true } Format.standard {} false f32 s :=
+  C01_decimal_full_proved { compact := true } Format.standard rfl rfl (Or.inl rfl) {} FTy.f32 (Or.inr rfl) false s h256 hlen
 
 end LexVerif.Props.C01Final
